@@ -12,7 +12,7 @@
 (* partial: outside the domain the properties quantify over the slot is     *)
 (* Unspec and only C01 (some slot, no panic) applies.                       *)
 (***************************************************************************)
-EXTENDS Env, Money, TLC
+EXTENDS Env, Units, TLC
 
 ArithMeaning(toks) ==
   IF DateLike(toks) THEN Unspec
@@ -76,6 +76,9 @@ LineMeaning(ctx, line) ==
     [] line.form = "money_lit"  -> [slot |-> Money(line.x.q, line.x.cur), env |-> ctx.env]
     [] line.form = "money_conv" -> [slot |-> Convert(ctx.calc, line.x.q, line.x.cur, line.target), env |-> ctx.env]
     [] line.form = "money_arith" -> [slot |-> MoneyArith(ctx.calc, line.l, line.op, line.r), env |-> ctx.env]
+    [] line.form = "unit_lit"   -> [slot |-> UnitQ(line.x.q, line.x.u), env |-> ctx.env]
+    [] line.form = "unit_conv"  -> [slot |-> ConvertUnit(line.x.q, line.x.u, line.target), env |-> ctx.env]
+    [] line.form = "unit_arith" -> [slot |-> UnitArith(line.l, line.op, line.r), env |-> ctx.env]
     [] line.form = "shape"   -> [slot |-> Unspec, env |-> ctx.env]
     [] OTHER                 -> [slot |-> Unspec, env |-> ctx.env]
 
@@ -121,6 +124,8 @@ SlotMatches(exp, obs) ==
   ELSE IF exp.k = "int" THEN /\ obs.k = "num" /\ Has(obs, "bits") /\ obs.bits = exp.bits
                              /\ (exp.base # 0 => Has(obs, "pr") /\ obs.pr = <<exp.base, PrintBase(exp.bits, exp.base)>>)
   ELSE IF exp.k = "term" THEN obs.k = exp.kind /\ (exp.kind = "money" => obs.cur = exp.cur)   \* the driver evaluates the term
+  ELSE IF exp.k = "uterm" THEN obs.k = "unit" /\ obs.u = exp.u      \* the driver evaluates the term
+  ELSE IF exp.k = "notunits" THEN obs.k \in SlotKinds /\ (obs.k = "unit" => obs.u \notin exp.us)
   ELSE IF exp.k = "ts" THEN obs.k = "num" /\ Has(obs, "ts") /\ obs.ts = <<exp.d, exp.s>> /\ (Has(obs, "pr") => obs.pr = <<exp.d, exp.s>>)
   ELSE Matches(exp, obs) /\ PrintMatches(exp, obs)
 SlotMatchesCtx(ctx, exp, obs) == SlotMatches(exp, obs) /\ PrintMatchesCtx(ctx, exp, obs)
